@@ -72,9 +72,19 @@ func init() {
 				}
 			}
 			out = append(out, inst("internal/maincmd", "HPush"))
+			// several files in one session; the real block size (700) with block-aligned files
+			out = append(out, inst("internal/sender", "HDeltaTwoFiles", "n", 2, "m", 2, "b", 1))
+			out = append(out, inst("internal/maincmd", "HClientPull", "n", 40000))
+			out = append(out, inst("rsyncd", "HEndToEndBig", "m", 700, "pos", 0, "t", 0))
+			out = append(out, inst("rsyncd", "HEndToEndBig", "m", 700, "pos", -1, "t", 1))
+			if tier == "thorough" {
+				out = append(out, inst("rsyncd", "HEndToEndBig", "m", 1400, "pos", 0, "t", 1))
+				out = append(out, inst("rsyncd", "HEndToEndBig", "m", 1401, "pos", 700, "t", 0))
+				out = append(out, inst("internal/sender", "HDeltaTwoFiles", "n", 3, "m", 2, "b", 2))
+			}
 			return out
 		},
-		MustReach: []string{"transferred", "skipped", "deleted", "kept"},
+		MustReach: []string{"transferred", "skipped", "deleted", "kept", "delta-saved", "blockref", "pulled"},
 		Redirects: sym.VfsRedirects(),
 		Bounds:    "per file: generator -> sender -> receiver composed on the real functions; source n bytes, prior destination absent (m=-1) or a regular file of m bytes, all contents, seeds, mtimes (int32) and -c -I -t -p symbolic; plus a push of a directory tree through the real client, option plumbing and receiving server (HPush)",
 		Outside:   "files of 700 bytes and more (multi-block layouts are covered on the sender/receiver halves under C02), directory walking with several regular files in one session, the pull and local arrangements end to end, real sockets/pipes/processes",
@@ -126,14 +136,14 @@ func init() {
 	reg(&Property{
 		ID: "C19",
 		Instances: func(tier string) []Instance {
-			out := []Instance{inst("rsyncd", "HACL", "k", 0), inst("rsyncd", "HACL", "k", 1), inst("rsyncd", "HACL", "k", 2)}
+			out := []Instance{inst("rsyncd", "HACL", "k", 0), inst("rsyncd", "HACL", "k", 1), inst("rsyncd", "HACL", "k", 2), inst("rsyncd", "HACLDaemon")}
 			if tier == "thorough" {
 				out = append(out, inst("rsyncd", "HACL", "k", 3))
 			}
 			return out
 		},
-		MustReach: []string{"granted", "refused"},
-		Redirects: aclRedirects(),
+		MustReach: []string{"granted", "refused", "daemon-refused", "daemon-admitted"},
+		Redirects: merge(sym.VfsRedirects(), aclRedirects()),
 		Bounds:    "rule lists of length 0..2 (thorough 3); per rule: allow | deny | unknown action | no space, and all | a network with symbolic family (v4/v6), symbolic address bytes and symbolic prefix length 0..32/0..128 | malformed network text; client address symbolic IPv4, IPv6 (not v4-mapped) or IPv4-mapped IPv6; the real (*net.IPNet).Contains / net.IP.To4 / net.CIDRMask are executed",
 		Outside:   "the text parsers net.SplitHostPort / net.ParseIP / net.ParseCIDR are replaced by stubs with the stated contract in symbolic mode (native replays use the real parsers); rule lists longer than the bound",
 	})
@@ -151,6 +161,13 @@ func init() {
 						out = append(out, inst("internal/sender", "HDeltaSender", "n", n, "m", m, "b", b, "s2", 16))
 					}
 				}
+			}
+			out = append(out, inst("internal/sender", "HDeltaTwoFiles", "n", 2, "m", 2, "b", 1))
+			// the sender's read window on a file larger than 256 KiB (one request; thorough: two in sequence)
+			out = append(out, func() Instance { i := inst("internal/sender", "HMapPtr", "size", 300000, "calls", 1); i.MaxAlloc = 1 << 20; return i }())
+			if tier == "thorough" {
+				out = append(out, func() Instance { i := inst("internal/sender", "HMapPtr", "size", 300000, "calls", 2); i.MaxAlloc = 1 << 20; return i }())
+				out = append(out, func() Instance { i := inst("internal/sender", "HMapPtr", "size", 600000, "calls", 1); i.MaxAlloc = 1 << 20; return i }())
 			}
 			// block length 3 is the smallest with weak-checksum collisions; m=6 gives a duplicated block
 			for _, nm := range [][2]int{{3, 3}, {3, 4}, {3, 6}, {4, 6}, {4, 4}} {
@@ -178,8 +195,8 @@ func init() {
 		},
 		Redirects: sym.VfsRedirects(),
 		MustReach: []string{"blockref", "literal", "end"},
-		Bounds:    "sender: target length n and basis length m up to the tier's bound, block length b, all byte contents and seeds symbolic",
-		Outside:   "files larger than the bound, the 256 KiB window/flush branch, real block lengths 700..131072",
+		Bounds:    "sender: target length n and basis length m up to the tier's bound, block length b, all byte contents and seeds symbolic; read window (mapStruct.ptr) on a 300000-byte file: requests of 1, 700, 256Ki, 256Ki+701, 256Ki+1401 bytes at offsets around 0, 1024, 36000, 256Ki and the end of file (+-1), one request (thorough: two in sequence, and a 600000-byte file)",
+		Outside:   "whole delta runs on files larger than the bound (the flush branch of hashSearch is not reached by a whole run), real block lengths 700..131072 in whole runs",
 		Timeout:   30 * time.Minute,
 	})
 	reg(&Property{
@@ -249,10 +266,11 @@ func init() {
 				small(inst("rsyncd", "HHostileDaemon", "mode", 0, "n", 10)),
 				small(inst("rsyncd", "HHostileDaemon", "mode", 1, "n", 2)),
 				small(inst("rsyncd", "HHostileDaemon", "mode", 2, "n", 2)),
-				small(inst("internal/sender", "HHostileFilter", "L", 9, "nameLen", 1)),
+				small(inst("internal/sender", "HHostileFilter", "L", 8, "nameLen", 1)),
 			}
 			if tier == "thorough" {
 				out = append(out,
+					small(inst("internal/sender", "HHostileFilter", "L", 9, "nameLen", 1)),
 					small(inst("internal/sender", "HHostileFilter", "L", 10, "nameLen", 2)),
 					small(inst("internal/sender", "HHostileRequests", "L", 48, "n", 3, "dry", 0)),
 					small(inst("internal/receiver", "HHostileEntry", "L", 9, "last", 1)),
@@ -316,9 +334,13 @@ func init() {
 			for _, l := range []int{0, 1, 3} {
 				out = append(out, inst("internal/rsyncwire", "HMuxWriter", "len", l))
 			}
+			// the real client stack (ClientRun) on a frame larger than 32 KiB / at the frame limit
+			out = append(out, inst("internal/maincmd", "HClientPull", "n", 40000))
+			out = append(out, inst("internal/maincmd", "HClientPull", "n", 262140))
 			return out
 		},
-		MustReach: []string{"data", "eof", "errorframe", "unknowntag", "accepted", "rejected", "ok"},
+		Redirects: sym.VfsRedirects(),
+		MustReach: []string{"data", "eof", "errorframe", "unknowntag", "accepted", "rejected", "ok", "pulled"},
 		Bounds:    "reader: k frames, each with symbolic tag (data/info/error/unknown), length 0..3 and payload, consumed in chunks of symbolic size 1..4 through the real 256 KiB bufio.Reader; frames of maxMessageSize-1, maxMessageSize, maxMessageSize+1 behind 0..2 info frames; runs of up to 128 info frames; writer: payload 0..3 bytes, tags 0..2",
 		Outside:   "more than k frames per stream; payload lengths between 4 and maxMessageSize-2; server call-site payload sizes",
 	})
@@ -400,19 +422,27 @@ func init() {
 		ID: "C13",
 		Instances: func(tier string) []Instance {
 			out := []Instance{
-				inst("internal/sender", "HFilterMatch", "k", 1),
-				inst("internal/sender", "HFilterMatch", "k", 2),
+				inst("internal/sender", "HFilterMatch", "k", 1, "long", 0),
+				inst("internal/sender", "HFilterMatch", "k", 2, "long", 0),
+				inst("internal/sender", "HFilterMatch", "k", 1, "long", 1),
+				inst("internal/sender", "HFilterMatch", "k", 2, "long", 1),
 				inst("internal/sender", "HFilterWalk", "n", 2, "k", 1),
 				inst("internal/sender", "HFilterWalk", "n", 2, "k", 2),
 				inst("internal/maincmd", "HClientSendFilter"),
-				func() Instance { i := inst("internal/sender", "HHostileFilter", "L", 9, "nameLen", 1); i.MaxAlloc = 8; return i }(),
+				func() Instance { i := inst("internal/sender", "HHostileFilter", "L", 8, "nameLen", 1); i.MaxAlloc = 8; return i }(),
 			}
 			if tier == "thorough" {
-				out = append(out, inst("internal/sender", "HFilterMatch", "k", 3), inst("internal/sender", "HFilterMatch", "k", 4), inst("internal/sender", "HFilterWalk", "n", 3, "k", 2))
+				out = append(out, func() Instance { i := inst("internal/sender", "HHostileFilter", "L", 9, "nameLen", 1); i.MaxAlloc = 8; return i }())
+				out = append(out, inst("internal/sender", "HFilterMatch", "k", 3, "long", 1), inst("internal/sender", "HFilterMatch", "k", 4, "long", 0), inst("internal/sender", "HFilterWalk", "n", 3, "k", 2))
+			}
+			for i := range out {
+				if out[i].Fn == "HFilterWalk" {
+					out[i].Params["long"] = 0
+				}
 			}
 			return out
 		},
-		MustReach: []string{"excluded", "kept", "listed", "dropped", "norules", "parsed"},
+		MustReach: []string{"excluded", "kept", "listed", "dropped", "norules", "error"},
 		Redirects: sym.VfsRedirects(),
 		Bounds:    "k rules sent through the real wire parser, each exclude or include with a symbolic one-letter pattern (a..d); names at top level or one level deep; walk: n top-level entries with symbolic distinct names, files or directories (a directory holds one child with a symbolic name), real io/fs.WalkDir; client-side sender (push/local) with a concrete exclude rule; rule syntax: arbitrary rule bytes (HHostileFilter) never panic",
 		Outside:   "patterns longer than one letter or containing '/', deeper trees, -f/--include/--exclude option parsing (rule strings are given to the option struct directly), pull arrangement end to end (the rules travel as wire bytes, which is what HFilterMatch/HFilterWalk consume)",
@@ -421,17 +451,31 @@ func init() {
 		ID: "C14",
 		Instances: func(tier string) []Instance {
 			out := []Instance{
-				inst("internal/rsyncopts", "HServerOptions", "split", 1, "delete", 1),
+				inst("internal/rsyncopts", "HServerOptions", "split", 1, "delete", 1, "lite", 1),
 				inst("internal/sender", "HFlistEncode", "n", 1, "split", 1),
 				inst("internal/receiver", "HFlistDecode", "k", 1, "opts", -1, "same", 0),
 				inst("internal/maincmd", "HPush"),
+				inst("internal/rsyncopts", "HClientParse", "k", 2),
+				func() Instance {
+					i := symOnly(inst("rsyncd", "HServerMapping"))
+					i.Redirects = map[string]string{"(*github.com/gokrazy/rsync/internal/receiver.Transfer).ReceiveFileList": "github.com/gokrazy/rsync/rsyncd.VCaptureFileList"}
+					return i
+				}(),
+				func() Instance {
+					i := symOnly(inst("internal/maincmd", "HClientMapping"))
+					i.Redirects = map[string]string{"(*github.com/gokrazy/rsync/internal/receiver.Transfer).ReceiveFileList": "github.com/gokrazy/rsync/internal/maincmd.VCaptureFileList"}
+					return i
+				}(),
+			}
+			if tier == "thorough" {
+				out = append(out, inst("internal/rsyncopts", "HClientParse", "k", 3), inst("internal/rsyncopts", "HServerOptions", "split", 1, "delete", 1, "lite", 0))
 			}
 			return out
 		},
-		MustReach: []string{"done", "args", "deleted", "kept", "rdev", "target"},
+		MustReach: []string{"done", "args", "deleted", "kept", "rdev", "target", "mapped"},
 		Redirects: sym.VfsRedirects(),
 		Bounds:    "option agreement: every subset of -n -l -o -g --devices --specials -t -p -r -c -I -u --delete in both directions: client ServerOptions() -> real server-side ParseArguments; stream agreement: sender encoder and receiver decoder each against the protocol-27 reference codec under every subset of the options that add fields; push end to end (client-side sender -> receiving server started with the client's arguments) for every subset of -p -t -l -o -g -D -c --delete and an exclude rule, on a tree of directories",
-		Outside:   "--no-* spellings and -a (the client's own parsing of its command line); pull and local arrangements end to end; sessions that transfer file data (covered per file by C01/C02)",
+		Outside:   "command lines of more than 2 (thorough 3) option tokens from the 29-spelling vocabulary (-a, -D, --no-* forms, --exclude/--include/-f); pull and local arrangements end to end; sessions that transfer file data (covered per file by C01/C02)",
 	})
 	reg(&Property{
 		ID: "C15",
@@ -441,6 +485,7 @@ func init() {
 				inst("internal/receiver", "HFlistDecode", "k", 1, "opts", -1, "same", 0),
 				inst("internal/receiver", "HFlistDecode", "k", 2, "opts", 31, "same", 31),
 				inst("internal/receiver", "HFlistDecode", "k", 2, "opts", 4, "same", 16),
+				inst("internal/receiver", "HFlistDecode", "k", 2, "opts", 0, "same", 0),
 				inst("internal/sender", "HFlistEncode", "n", 1, "split", 1),
 			}
 			if tier == "thorough" {
